@@ -206,10 +206,11 @@ fn history(i: usize, cfg: &Cfg, log: &mut Log) {
           // up to midnight (23:59:59.5 and later)
           let ms = *rng.pick(&[0i64, 21_600_000, 43_200_000, 86_399_000, 86_399_400, 86_399_600, 86_399_900, 64_800_000]);
           let jd = n as f64 - 0.5 + ms as f64 / 86_400_000.0;
-          let got = dn_of(&JulianDay::from_julian_day(jd).get_solar_day());
           let want = if ms >= 86_399_500 { n + 1 } else { n };
           trace.push(format!("jd({}+{}ms)", name, ms));
+          // (the last half second of 9999-12-31 rounds to a date outside the range: not asked)
           if want <= LAST {
+            let got = dn_of(&JulianDay::from_julian_day(jd).get_solar_day());
             judged += 1;
             if got != Some(want) {
               out.push((format!("step {} {}: Julian date {} -> {:?}", step, trace.join(" "), jd, got.map(cal::fmt_dn)), cal::fmt_dn(want)));
